@@ -546,6 +546,10 @@ def native(seed=0, trials=60):
             if np.any(q.contains_points(pts) != fresh.contains_points(pts)):
                 bad.append(dict(what=f"membership after in-place {nm} answers for the outline before the change (query, transform in place, query again)", trial=t,
                                 n_points_wrong=int(np.sum(q.contains_points(pts) != fresh.contains_points(pts)))))
+        for nm_, q_ in (("copy()", a.copy()), ("union()", a.union()), ("resample(False)", a.resample(False))):
+            n += 1
+            if np.shares_memory(q_.points, a.points):
+                bad.append(dict(what=f"{nm_} shares its vertex array with the original (editing one outline moves the other)", trial=t))
         c = a.copy()
         c.translate(dx=1.0, inplace=True)
         z = a.translate(dx=0.0, dy=0.0)
